@@ -1,3 +1,4 @@
+import Psa.NamesProofs
 import Psa.RenderProofs
 import Psa.EvalProofs
 import Psa.Generated.Tables
@@ -95,6 +96,27 @@ theorem C13_restrictedVolumes_detail_names (T : Tables) (relax : Bool) (p : Pod)
   rw [show run T relax .restrictedVolumes0 p = restrictedVolumes_1_0 T p from rfl, C13_restrictedVolumes_offenders]
   exact ⟨_, by simp only [List.append_assoc]; rfl⟩
 
+/-- **Every detail shape names its offenders by name**: whenever a revision of a container- or volume-related control
+    forbids a pod, the detail text it returns contains, between quotes, the name of every container / volume the structured
+    result lists (`Kind.named`: the offenders, by C13_mk_fields and the per-control offender lemmas above) — for all eighteen
+    message shapes, every pod, every revision, relaxation on or off. -/
+theorem C13_detail_names_offenders (T : Tables) (relax : Bool) (r : RevId) (p : Pod)
+    (h : (runRev T relax r p).allowed = false) (n : Str) (hn : n ∈ r.kind.named (run T relax r p)) :
+    quoted n <:+: (runRev T relax r p).detail := by
+  have ho : (run T relax r p).allowed = false := by rw [← render_allowed r.kind]; exact h
+  simp only [runRev, render, ho, Bool.false_eq_true, ↓reduceIte]
+  exact detail_names r.kind _ n hn
+
+/-- non-vacuity: a pod with two privileged containers; both names are in the text -/
+example : quoted b!"a" <:+: (runRev Generated.tables false .privileged0
+      { containers := [{ name := b!"a", sc := some { privileged := some true } }, { name := b!"ok" },
+                       { name := b!"b", sc := some { privileged := some true } }] }).detail ∧
+    (runRev Generated.tables false .privileged0
+      { containers := [{ name := b!"a", sc := some { privileged := some true } }, { name := b!"ok" },
+                       { name := b!"b", sc := some { privileged := some true } }] }).detail =
+      b!"containers \"a\", \"b\" must not set securityContext.privileged=true" := by
+  refine ⟨C13_detail_names_offenders _ _ _ _ (by decide) _ (by decide), by decide⟩
+
 /-- tie obligation: the volume-type names (nested switch of restrictedVolumes_1_0, in source order) are the model's -/
 theorem C13_volume_names : Generated.volBadKinds = badVolKinds ∧ Generated.volBadDefault = b!"unknown" := by decide
 
@@ -108,5 +130,6 @@ theorem C13_volume_names : Generated.volBadKinds = badVolKinds ∧ Generated.vol
 #print axioms C13_restrictedVolumes_offenders
 #print axioms C13_privileged_detail
 #print axioms C13_restrictedVolumes_detail_names
+#print axioms C13_detail_names_offenders
 #print axioms C13_volume_names
 end PSA.Props
